@@ -8,6 +8,10 @@ Exact ties: the step each of split / join / lift / wrap records equals the step 
 (lean/PM/StructEdit.lean; failure class of build+apply when the real edit raises); every helper answer (can_split,
 can_join, join_point, lift_target, find_wrapping, insert_point, drop_point, can_change_type) equals the model's
 (lean/PM/Structure.lean, Structure2.lean), `None` and "raises" included, also at off-guard positions.
+Guard ties (relational, all schemas incl. random and aimed ones): the guards of the theorems "an approved edit applies"
+(Props/C12.lean `canSplit_split_applies`, …; model functions `splitGuard`, … of lean/PM/Structure.lean) are evaluated by the
+driver at every approved edit: approved ∧ guard ⇒ the real edit succeeded (a mismatch otherwise).  Aimed schemas
+(`AIMED`, outside the family: approval without the guard is known not to be enough there) make the guards bite.
 Search: approve ⇒ perform ⇒ `check()` ∧ leaf/text sequence equal; helpers never die with an internal
 error and return in-range results; for random schemas only "a performed edit that returns is valid
 and keeps the leaf sequence".
@@ -28,6 +32,24 @@ from prosemirror.transform.structure import (
 from .. import core, gen, ops, schemas
 from ..codec import doc_tokens
 from ..core import outcome
+
+
+_AIMED = None
+
+
+def aimed():
+    """schemas outside the family in which a helper approves an edit that then fails unless the theorem's guard holds"""
+    global _AIMED
+    if _AIMED is None:
+        from prosemirror.model import Schema
+        _AIMED = [
+            # a cut inside the text of `p("ab", image)` leaves `p("a")`: `can_split` does not look at the text's first part
+            schemas.SchemaInfo(Schema({"nodes": {
+                "doc": {"content": "block+"}, "p": {"content": "(text image)*", "group": "block"},
+                "quote": {"content": "block+", "group": "block"},
+                "image": {"inline": True}, "text": {"inline": True}}, "marks": {"em": {}}}), "alternating-inline"),
+        ]
+    return _AIMED
 
 
 def content(toks):
@@ -83,6 +105,15 @@ def run(ctx):
                 if out != exp:
                     ctx.mismatch(op, replay, exp, out)
                 continue
+            if op.startswith("guard "):
+                # relational: approved ∧ guard ⇒ the real edit succeeded
+                g = out.get("ok")
+                ctx.count(f"{op}: guard={g} edit {'succeeded' if exp else 'failed'}")
+                if g is True and not exp:
+                    ctx.mismatch(op, replay, "the approved edit succeeds whenever the theorem's guard holds", "guard holds, the real edit failed")
+                elif g not in (True, False):
+                    ctx.mismatch(op, replay, "a boolean guard", out)
+                continue
             if op.startswith("builder-fails"):
                 if out != exp:
                     ctx.mismatch(op, replay, exp, out if "err" in out else "model: the built step applies")
@@ -99,12 +130,21 @@ def run(ctx):
         metas.append(("helper " + name, replay, {"ok": enc(val)} if st == "ok" else {"err": "raises"}))
         ctx.count(f"helper tie {name}: " + ("raises" if st != "ok" else "None" if val is None else "answer"))
 
+    def guard(info, d, kind, fields, replay, succeeded):
+        """the guard of the "approved edit applies" theorem of this kind, evaluated by the model at an approved edit"""
+        reqs.append(dict(fields, op="structGuard", k=kind, s=info.lean_id, doc=info.node(d)))
+        metas.append(("guard " + kind, replay, bool(succeeded)))
+
     fam = schemas.family()
+    aim = aimed()
     for si in range(ctx.budget(14, 60)):
         if len(reqs) >= 15000:
             flush()     # keep memory bounded in long runs
         bundled = si < len(fam) or rng.random() < 0.7
         info = fam[si % len(fam)] if bundled else schemas.random_schema(rng)
+        if si >= len(fam) and (si - len(fam)) % 4 == 0:
+            # an aimed schema: approvals are not claims here (`bundled = False`), the guard ties are
+            bundled, info = False, aim[((si - len(fam)) // 4) % len(aim)]
         schema = info.schema
         ctx.driver.add_schema(info)
         docs = [gen.gen_doc(rng, schema, budget=rng.choice([8, 16, 30])) for _ in range(ctx.budget(4, 8))]
@@ -144,8 +184,10 @@ def run(ctx):
                         continue
                     if ok or (not bundled and rng.random() < 0.15) or rng.random() < 0.03:
                         if bundled or ok or True:
-                            perform(ctx, info, d, "split", lambda tr: tr.split(pos, depth), replay, reqs, metas, bool(ok) and bundled,
-                                    build={"k": "split", "pos": pos, "depth": depth})
+                            done = perform(ctx, info, d, "split", lambda tr: tr.split(pos, depth), replay, reqs, metas, bool(ok) and bundled,
+                                           build={"k": "split", "pos": pos, "depth": depth})
+                            if ok:
+                                guard(info, d, "split", {"pos": pos}, replay, done is not None)
                 # ---- can_join / join / join_point
                 st, ok = outcome(lambda: can_join(d, pos))
                 replay = dict(base, helper="can_join")
